@@ -182,8 +182,21 @@ func runWorkload(wl Workload) *traceResult {
 			}
 		}
 		wg.Wait()
-		res.backlog = [4]int{wl.Opens - int(other), wl.Backlog[1], int(rejected), int(pending)}
 		finish(res, rec, mux, ca, cb, false)
+		// Judge the acceptor, not the round trip: count the open frames that
+		// reached the wire and the close frames the (never accepting) peer
+		// answered with; what it did not reject is what it keeps pending.
+		_, _ = rejected, pending
+		opensSeen, rejectsSeen := 0, 0
+		for _, e := range res.events {
+			if e.Side == 0 && e.F.Kind == kOpen {
+				opensSeen++
+			}
+			if e.Side == 1 && e.F.Kind == kClose {
+				rejectsSeen++
+			}
+		}
+		res.backlog = [4]int{opensSeen, wl.Backlog[1], rejectsSeen, opensSeen - rejectsSeen}
 		return res
 	}
 
